@@ -561,18 +561,198 @@ theorem saveKey_top_fresh (s : StateChanges) (a : Addr) (self : Word) (off : Opt
   simp only [saveKey, hco]
   exact this
 
+/-! ### re-registering an existing key is idempotent -/
+
+/-- the state after an unreachable node has been appended to the arena (what `NewBranchKey` leaves behind when the key exists) -/
+def withJunk (s : StateChanges) (j : KeyNode) : StateChanges := { s with keys := s.keys ++ [j] }
+
+theorem wj_child_old (s : StateChanges) (j : KeyNode) (m : Nat) (x : Bytes) (hm : m < s.keys.length) :
+    child (withJunk s j) m x = child s m x := by
+  unfold child withJunk
+  simp [List.getElem?_append_left hm]
+
+theorem wj_walk_old (s : StateChanges) (hs : Agree s) (j : KeyNode) :
+    ∀ (p : List Bytes) (r : Nat), r < s.keys.length → walk (withJunk s j) (some r) p = walk s (some r) p := by
+  intro p
+  induction p with
+  | nil => intro r _; rfl
+  | cons x xs ih =>
+    intro r hr
+    rw [walk_cons, walk_cons, wj_child_old s j r x hr]
+    cases hc : child s r x with
+    | none => rw [walk_none, walk_none]
+    | some c =>
+      have hcv : c < s.keys.length := by
+        unfold child at hc
+        cases hk : s.keys[r]? with
+        | none => simp [hk] at hc
+        | some k => simp only [hk, Option.bind_some] at hc; exact hs.childValid r k x c hk hc
+      exact ih c hcv
+
+theorem agree_withJunk (s : StateChanges) (hs : Agree s) (j : KeyNode) (hj : j.childrenIndex = []) : Agree (withJunk s j) := by
+  have hlen : (withJunk s j).keys.length = s.keys.length + 1 := by simp [withJunk]
+  have hkeyOld : ∀ (i : Nat) (k : KeyNode), s.keys[i]? = some k → (withJunk s j).keys[i]? = some k := by
+    intro i k hk
+    have hlt : i < s.keys.length := (List.getElem?_eq_some_iff.mp hk).1
+    simp [withJunk, List.getElem?_append_left hlt, hk]
+  refine ⟨?_, ?_, ?_, ?_, ?_⟩
+  · intro a r hr
+    rw [hlen]; have := hs.rootValid a r hr; omega
+  · intro p k n c hk hc
+    rw [hlen]
+    by_cases hp : p < s.keys.length
+    · have : (withJunk s j).keys[p]? = s.keys[p]? := by simp [withJunk, List.getElem?_append_left hp]
+      rw [this] at hk
+      have := hs.childValid p k n c hk hc; omega
+    · have hpe : p = s.keys.length := by
+        have : p < (withJunk s j).keys.length := (List.getElem?_eq_some_iff.mp hk).1
+        omega
+      subst hpe
+      simp [withJunk] at hk
+      subst hk
+      rw [hj] at hc
+      simp [alookup] at hc
+  · intro a sl o ty id hl
+    obtain ⟨⟨k, hk, h1, h2, h3⟩, r, pth, hr, hne, hw⟩ := hs.idx a sl o ty id hl
+    exact ⟨⟨k, hkeyOld id k hk, h1, h2, h3⟩, r, pth, hr, hne, by rw [wj_walk_old s hs j pth r (hs.rootValid a r hr)]; exact hw⟩
+  · intro a r p id hr hne hw
+    rw [wj_walk_old s hs j p r (hs.rootValid a r hr)] at hw
+    obtain ⟨k, sl, hk, hsl, hlk⟩ := hs.path a r p id hr hne hw
+    exact ⟨k, sl, hkeyOld id k hk, hsl, hlk⟩
+  · intro a1 a2 r1 r2 p1 p2 id h1 h2 w1 w2
+    rw [wj_walk_old s hs j p1 r1 (hs.rootValid a1 r1 h1)] at w1
+    rw [wj_walk_old s hs j p2 r2 (hs.rootValid a2 r2 h2)] at w2
+    exact hs.owner a1 a2 r1 r2 p1 p2 id h1 h2 w1 w2
+
+/-- the registration names an existing child of its parent by the same name AND the same (slot, offset), which is the
+    flat-index entry for its coordinates: an exact re-registration -/
+def ExactRereg (s1 : StateChanges) (a : Addr) (pid : Nat) (pk : KeyNode) (self : Word) (o : Nat) (name : Bytes) (ex : Nat) (ek : KeyNode) : Prop :=
+  s1.keys[pid]? = some pk ∧ alookup name pk.childrenIndex = some ex ∧ alookup (self, o) pk.children = some ex ∧
+  s1.keys[ex]? = some ek ∧ (alookup (a, ek.slot.getD 0, ek.offset, ek.typeId) s1.index).isSome = true
+
+theorem modify_self {α : Type} (l : List α) (i : Nat) (g : α → α) (h : ∀ x, l[i]? = some x → g x = x) : l.modify i g = l := by
+  apply List.ext_getElem?
+  intro j
+  rw [List.getElem?_modify]
+  by_cases hij : i = j
+  · subst hij
+    cases hx : l[i]? with
+    | none => simp
+    | some x => simp [h x hx]
+  · simp [hij]
+
+theorem saveKey_under_rereg (s1 : StateChanges) (a : Addr) (pid : Nat) (pk : KeyNode) (self : Word) (o : Nat) (ty : Word) (name : Bytes)
+    (ex : Nat) (ek : KeyNode) (hf : ExactRereg s1 a pid pk self o name ex ek) :
+    (let cid := s1.keys.length
+     let child : KeyNode := { slot := some self, offset := o, data := name, typeId := ty, nodeType := .branch }
+     let r := addChild (s1.keys ++ [child]) pid cid self o name
+     let s2 : StateChanges := { s1 with keys := r.1 }
+     match r.1[r.2]? with
+     | none => (s2, (none : Option String))
+     | some rk => (s2.addKey a (rk.slot.getD 0) rk.offset rk.typeId r.2, none)) =
+      (withJunk s1 { slot := some self, offset := o, data := name, typeId := ty, nodeType := .branch }, none) := by
+  obtain ⟨hpk, hname, hso, hek, hidx⟩ := hf
+  have hlt : pid < s1.keys.length := (List.getElem?_eq_some_iff.mp hpk).1
+  have hexlt : ex < s1.keys.length := (List.getElem?_eq_some_iff.mp hek).1
+  have hpk' : (s1.keys ++ [({ slot := some self, offset := o, data := name, typeId := ty, nodeType := .branch } : KeyNode)])[pid]? = some pk := by
+    rw [List.getElem?_append_left hlt]; exact hpk
+  simp only [addChild, hpk', hname, hso]
+  have hmod : (List.modify (s1.keys ++ [({ slot := some self, offset := o, data := name, typeId := ty, nodeType := .branch } : KeyNode)]) pid
+      (fun k => { k with childrenIndex := pk.childrenIndex })) =
+      s1.keys ++ [({ slot := some self, offset := o, data := name, typeId := ty, nodeType := .branch } : KeyNode)] := by
+    apply modify_self
+    intro x hx
+    rw [hpk'] at hx
+    injection hx with hx
+    subst hx
+    rfl
+  rw [hmod]
+  have hek' : (s1.keys ++ [({ slot := some self, offset := o, data := name, typeId := ty, nodeType := .branch } : KeyNode)])[ex]? = some ek := by
+    rw [List.getElem?_append_left hexlt]; exact hek
+  simp only [hek', addKey]
+  cases hl : alookup (a, ek.slot.getD 0, ek.offset, ek.typeId) s1.index with
+  | none => rw [hl] at hidx; cases hidx
+  | some v => rfl
+
+/-- **re-registering an existing key is idempotent**: what an exact re-registration leaves behind (an unreachable arena node)
+    changes the answer of no lookup — by name path, by (slot, offset, type), `Variable`, `Slot` -/
+theorem c11_reregistration_idempotent (s : StateChanges) (hs : Agree s) (j : KeyNode) :
+    (∀ a name ixs, (withJunk s j).findKeyIndices a name ixs = s.findKeyIndices a name ixs) ∧
+    (∀ a sl o ty, (withJunk s j).findKey a sl o ty = s.findKey a sl o ty) ∧
+    (∀ a name ixs, (withJunk s j).variableQ a name ixs = s.variableQ a name ixs) ∧
+    (∀ a sl off ty, (withJunk s j).slotQ a sl off ty = s.slotQ a sl off ty) := by
+  have hfi : ∀ a name ixs, (withJunk s j).findKeyIndices a name ixs = s.findKeyIndices a name ixs := by
+    intro a name ixs
+    rw [findKeyIndices_eq_walk, findKeyIndices_eq_walk]
+    show (alookup a s.roots).bind _ = _
+    cases hr : alookup a s.roots with
+    | none => rfl
+    | some r => simp only [Option.bind_some]; exact wj_walk_old s hs j _ r (hs.rootValid a r hr)
+  have hkey : ∀ id, id < s.keys.length → (withJunk s j).keys[id]? = s.keys[id]? := by
+    intro id hid; simp [withJunk, List.getElem?_append_left hid]
+  refine ⟨hfi, fun _ _ _ _ => rfl, ?_, ?_⟩
+  · intro a name ixs
+    unfold variableQ
+    rw [hfi]
+    cases hf : s.findKeyIndices a name ixs with
+    | none => rfl
+    | some id =>
+      simp only [Option.bind_some]
+      have hid : id < s.keys.length := by
+        rw [findKeyIndices_eq_walk] at hf
+        cases hr : alookup a s.roots with
+        | none => rw [hr] at hf; cases hf
+        | some r => rw [hr] at hf; exact walk_valid s hs _ r id (hs.rootValid a r hr) hf
+      rw [hkey id hid]
+  · intro a sl off ty
+    unfold slotQ
+    cases hco : checkOffset off with
+    | none => rfl
+    | some o =>
+      simp only
+      have hfk : (withJunk s j).findKey a sl o ty = s.findKey a sl o ty := rfl
+      rw [hfk]
+      cases hf : s.findKey a sl o ty with
+      | none => rfl
+      | some id =>
+        simp only [Option.bind_some]
+        obtain ⟨⟨k, hk, _⟩, _⟩ := hs.idx a sl o ty id hf
+        have hid : id < s.keys.length := (List.getElem?_eq_some_iff.mp hk).1
+        rw [hkey id hid]
+
+theorem saveKey_nested_rereg (s : StateChanges) (a : Addr) (p self : Word) (off : Option Word) (o : Nat) (ty pty : Word) (name : Bytes)
+    (pid : Nat) (pk : KeyNode) (ex : Nat) (ek : KeyNode) (hco : checkOffset off = some o) (hp : s.findKey a p 0 pty = some pid)
+    (hf : ExactRereg s a pid pk self o name ex ek) :
+    s.saveKey a (some p) self off ty pty name =
+      (withJunk s { slot := some self, offset := o, data := name, typeId := ty, nodeType := .branch }, none) := by
+  have := saveKey_under_rereg s a pid pk self o ty name ex ek hf
+  simp only [saveKey, hco, hp, Option.map_some]
+  exact this
+
+theorem saveKey_top_rereg (s : StateChanges) (a : Addr) (self : Word) (off : Option Word) (o : Nat) (ty pty : Word) (name : Bytes)
+    (pk : KeyNode) (ex : Nat) (ek : KeyNode) (hco : checkOffset off = some o)
+    (hf : ExactRereg (s.ensureRoot a).1 a (s.ensureRoot a).2 pk self o name ex ek) :
+    s.saveKey a none self off ty pty name =
+      (withJunk (s.ensureRoot a).1 { slot := some self, offset := o, data := name, typeId := ty, nodeType := .branch }, none) := by
+  have := saveKey_under_rereg (s.ensureRoot a).1 a (s.ensureRoot a).2 pk self o ty name ex ek hf
+  simp only [saveKey, hco]
+  exact this
+
 /-! ### every conflict-free history -/
 
-/-- an operation is conflict-free in state `s`: any change journal; a registration that is refused; or a registration
-    whose name, (slot, offset) under its parent and (account, slot, offset, type) are all new — top-level or nested -/
+/-- an operation is conflict-free in state `s`: any change journal; a registration that is refused; a registration whose
+    name, (slot, offset) under its parent and (account, slot, offset, type) are all new — top-level or nested; or an exact
+    re-registration (same name and same (slot, offset) denoting the same existing child) -/
 def ConflictFree (s : StateChanges) : KOp → Prop
   | .change _ _ _ _ _ => True
   | .reg a parent self off ty pty name =>
     (s.saveKey a parent self off ty pty name).2.isSome = true ∨
     (∃ o, checkOffset off = some o ∧
       match parent with
-      | none => ∃ pk, FreshUnder (s.ensureRoot a).1 a (s.ensureRoot a).2 pk self o ty name
-      | some p => ∃ pid pk, s.findKey a p 0 pty = some pid ∧ FreshUnder s a pid pk self o ty name)
+      | none => ∃ pk, FreshUnder (s.ensureRoot a).1 a (s.ensureRoot a).2 pk self o ty name ∨
+                       ∃ ex ek, ExactRereg (s.ensureRoot a).1 a (s.ensureRoot a).2 pk self o name ex ek
+      | some p => ∃ pid pk, s.findKey a p 0 pty = some pid ∧
+                    (FreshUnder s a pid pk self o ty name ∨ ∃ ex ek, ExactRereg s a pid pk self o name ex ek))
 
 def CFRun : StateChanges → List KOp → Prop
   | _, [] => True
@@ -593,15 +773,19 @@ theorem agree_step (s : StateChanges) (hs : Agree s) (op : KOp) (hcf : ConflictF
         exact hs
     · cases parent with
       | none =>
-        obtain ⟨pk, hf⟩ := hfresh
-        rw [saveKey_top_fresh s a self off o ty pty name pk hco hf]
-        obtain ⟨hs1, hroot⟩ := agree_ensureRoot s hs a
-        exact agree_regUnder _ a _ pk self o ty name hf.1 hs1 hf.2.1 hf.2.2.2 ⟨_, [], hroot, rfl⟩
+        obtain ⟨pk, hf | ⟨ex, ek, hr⟩⟩ := hfresh
+        · rw [saveKey_top_fresh s a self off o ty pty name pk hco hf]
+          obtain ⟨hs1, hroot⟩ := agree_ensureRoot s hs a
+          exact agree_regUnder _ a _ pk self o ty name hf.1 hs1 hf.2.1 hf.2.2.2 ⟨_, [], hroot, rfl⟩
+        · rw [saveKey_top_rereg s a self off o ty pty name pk ex ek hco hr]
+          exact agree_withJunk _ (agree_ensureRoot s hs a).1 _ rfl
       | some p =>
-        obtain ⟨pid, pk, hp, hf⟩ := hfresh
-        rw [saveKey_nested_fresh s a p self off o ty pty name pid pk hco hp hf]
-        obtain ⟨_, r, pth, hr, _, hw⟩ := hs.idx a p 0 pty pid hp
-        exact agree_regUnder s a pid pk self o ty name hf.1 hs hf.2.1 hf.2.2.2 ⟨r, pth, hr, hw⟩
+        obtain ⟨pid, pk, hp, hf | ⟨ex, ek, hr⟩⟩ := hfresh
+        · rw [saveKey_nested_fresh s a p self off o ty pty name pid pk hco hp hf]
+          obtain ⟨_, r, pth, hr, _, hw⟩ := hs.idx a p 0 pty pid hp
+          exact agree_regUnder s a pid pk self o ty name hf.1 hs hf.2.1 hf.2.2.2 ⟨r, pth, hr, hw⟩
+        · rw [saveKey_nested_rereg s a p self off o ty pty name pid pk ex ek hco hp hr]
+          exact agree_withJunk s hs _ rfl
 
 theorem agree_run (ops : List KOp) : ∀ (s : StateChanges), Agree s → CFRun s ops → Agree (ops.foldl KOp.apply s) := by
   induction ops with
@@ -653,6 +837,39 @@ theorem c11_same_changes (ops : List KOp) (h : CFRun {} ops) (a : Addr) (name : 
 
 /-! ### an executable test for conflict-freedom (sound), and a non-vacuity instance -/
 
+/-- executable test for the two accepted kinds of registration under parent content `pk` in state `s1` -/
+def okUnder (s1 : StateChanges) (a : Addr) (pk : KeyNode) (self : Word) (o : Nat) (ty : Word) (name : Bytes) : Bool :=
+  ((alookup name pk.childrenIndex).isNone && (alookup (self, o) pk.children).isNone && (alookup (a, self, o, ty) s1.index).isNone) ||
+  (match alookup name pk.childrenIndex, alookup (self, o) pk.children with
+   | some e1, some e2 =>
+     e1 == e2 && (match s1.keys[e1]? with
+                  | some ek => (alookup (a, ek.slot.getD 0, ek.offset, ek.typeId) s1.index).isSome
+                  | none => false)
+   | _, _ => false)
+
+theorem okUnder_sound (s1 : StateChanges) (a : Addr) (pid : Nat) (pk : KeyNode) (self : Word) (o : Nat) (ty : Word) (name : Bytes)
+    (hpk : s1.keys[pid]? = some pk) (h : okUnder s1 a pk self o ty name = true) :
+    FreshUnder s1 a pid pk self o ty name ∨ ∃ ex ek, ExactRereg s1 a pid pk self o name ex ek := by
+  simp only [okUnder, Bool.or_eq_true] at h
+  rcases h with h | h
+  · simp only [Bool.and_eq_true, Option.isNone_iff_eq_none] at h
+    exact Or.inl ⟨hpk, h.1.1, h.1.2, h.2⟩
+  · right
+    cases h1 : alookup name pk.childrenIndex with
+    | none => simp [h1] at h
+    | some e1 =>
+      cases h2 : alookup (self, o) pk.children with
+      | none => simp [h1, h2] at h
+      | some e2 =>
+        simp only [h1, h2, Bool.and_eq_true, beq_iff_eq] at h
+        obtain ⟨he, hk⟩ := h
+        subst he
+        cases hek : s1.keys[e1]? with
+        | none => simp [hek] at hk
+        | some ek =>
+          simp only [hek] at hk
+          exact ⟨e1, ek, hpk, h1, h2, hek, hk⟩
+
 def cfCheck (s : StateChanges) : KOp → Bool
   | .change _ _ _ _ _ => true
   | .reg a parent self off ty pty name =>
@@ -664,16 +881,14 @@ def cfCheck (s : StateChanges) : KOp → Bool
        | none =>
          (match (s.ensureRoot a).1.keys[(s.ensureRoot a).2]? with
           | none => false
-          | some pk => (alookup name pk.childrenIndex).isNone && (alookup (self, o) pk.children).isNone &&
-                       (alookup (a, self, o, ty) (s.ensureRoot a).1.index).isNone)
+          | some pk => okUnder (s.ensureRoot a).1 a pk self o ty name)
        | some p =>
          (match s.findKey a p 0 pty with
           | none => false
           | some pid =>
             match s.keys[pid]? with
             | none => false
-            | some pk => (alookup name pk.childrenIndex).isNone && (alookup (self, o) pk.children).isNone &&
-                         (alookup (a, self, o, ty) s.index).isNone))
+            | some pk => okUnder s a pk self o ty name))
 
 theorem cfCheck_sound (s : StateChanges) (op : KOp) (h : cfCheck s op = true) : ConflictFree s op := by
   cases op with
@@ -694,8 +909,8 @@ theorem cfCheck_sound (s : StateChanges) (op : KOp) (h : cfCheck s op = true) : 
           cases hk : (s.ensureRoot a).1.keys[(s.ensureRoot a).2]? with
           | none => simp [hk] at h
           | some pk =>
-            simp only [hk, Bool.and_eq_true, Option.isNone_iff_eq_none] at h
-            exact ⟨pk, hk, h.1.1, h.1.2, h.2⟩
+            simp only [hk] at h
+            exact ⟨pk, okUnder_sound _ a _ pk self o ty name hk h⟩
         | some p =>
           simp only at h ⊢
           cases hp : s.findKey a p 0 pty with
@@ -705,8 +920,8 @@ theorem cfCheck_sound (s : StateChanges) (op : KOp) (h : cfCheck s op = true) : 
             cases hk : s.keys[pid]? with
             | none => simp [hk] at h
             | some pk =>
-              simp only [hk, Bool.and_eq_true, Option.isNone_iff_eq_none] at h
-              exact ⟨pid, pk, rfl, hk, h.1.1, h.1.2, h.2⟩
+              simp only [hk] at h
+              exact ⟨pid, pk, rfl, okUnder_sound s a pid pk self o ty name hk h⟩
 
 def cfRunCheck : StateChanges → List KOp → Bool
   | _, [] => true
@@ -719,11 +934,12 @@ theorem cfRunCheck_sound : ∀ (ops : List KOp) (s : StateChanges), cfRunCheck s
     exact ⟨cfCheck_sound s op h.1, cfRunCheck_sound rest _ h.2⟩
 
 /-- non-vacuity: two accounts with the same variable name, a struct member and a mapping entry under one parent, a
-    refused registration (offset 32) and a change — conflict-free, so the theorems apply; the conflicting histories of
+    refused registration (offset 32), a change and an exact re-registration — conflict-free, so the theorems apply; the conflicting histories of
     D14 are rejected by the test -/
 def cfExample : List KOp :=
   [ .reg 1 none 5 (some 0) 7 0 [0x61], .reg 1 (some 5) 9 (some 0) 8 7 [1], .reg 2 none 5 (some 0) 7 0 [0x61],
-    .reg 1 none 6 (some 32) 7 0 [0x62], .change 1 9 (some 0) 8 [0xee], .reg 1 (some 5) 10 (some 4) 8 7 [2] ]
+    .reg 1 none 6 (some 32) 7 0 [0x62], .change 1 9 (some 0) 8 [0xee], .reg 1 (some 5) 10 (some 4) 8 7 [2],
+    .reg 1 (some 5) 9 (some 0) 8 7 [1] ]
 
 example : cfRunCheck {} cfExample = true ∧ (runK cfExample).findKeyIndices 1 [0x61] [[2]] = some 5 ∧
     (runK cfExample).findKey 1 10 4 8 = some 5 := by decide +kernel
